@@ -142,7 +142,9 @@ func (e *env) word() string {
 	return words[e.rng.Intn(len(words))]
 }
 
-var queryPieces = []string{"a=1", "b=2", "a=3", "&", "&", "&&", "?", "%41", "%4", "%zz", "%", "+", "=", "a", "é", "%c3%a9", "%C3%A9", "%ff", "%e2%82", "b=2=3", "=x", "x=", "%26", "%3D", "%2B", "%25", " ", "#h", "a+b=c+d"}
+var queryPieces = []string{"a=1", "b=2", "a=3", "&", "&", "&&", "?", "%41", "%4", "%zz", "%", "+", "=", "a", "é", "%c3%a9", "%C3%A9", "%ff", "%e2%82", "b=2=3", "=x", "x=", "%26", "%3D", "%2B", "%25", " ", "#h", "a+b=c+d",
+	// characters next to the three hex ranges, in either digit position
+	"%g1", "%1g", "%G0", "%0G", "%/0", "%0/", "%:0", "%0:", "%@A", "%A@", "%`a", "%a`", "%fF", "%Ff"}
 
 func (e *env) queryString() string {
 	var sb strings.Builder
